@@ -390,6 +390,13 @@ async fn digest(node: &Node) -> Result<String, OpErr> {
     Ok(parts.join(" "))
 }
 
+/// only the tables whose `name:rows:hash` entry differs
+fn digest_diff(a: &str, b: &str) -> String {
+    let (x, y): (Vec<&str>, Vec<&str>) = (a.split(' ').collect(), b.split(' ').collect());
+    let d: Vec<String> = x.iter().zip(y.iter()).filter(|(p, q)| p != q).map(|(p, q)| format!("{p} -> {q}")).collect();
+    d.join("; ")
+}
+
 async fn wait_until<F, Fut>(deadline: Duration, mut cond: F) -> Result<bool, OpErr>
 where
     F: FnMut() -> Fut,
@@ -601,7 +608,7 @@ async fn op_sync(w: &mut World, client: Option<u16>, server_c: u16) -> Result<Ou
                     // nothing may have reached the client: bounded look for the row, then digest
                     let after = digest(&cl).await?;
                     if row_visible(&cl, row).await? || after != before {
-                        o.fails.push(format!("client of cluster {c} changed its stores although cluster-{server_c} server rejected it: {before} -> {after}"));
+                        o.fails.push(format!("client of cluster {c} changed its stores although cluster-{server_c} server rejected it: {}", digest_diff(&before, &after)));
                     }
                     "rejected".to_string()
                 }
@@ -616,7 +623,7 @@ async fn op_sync(w: &mut World, client: Option<u16>, server_c: u16) -> Result<Ou
                     o.tags.push(format!("psync-error-instead-of-rejection:{}", short(&e.to_string())));
                     let after = digest(&cl).await?;
                     if row_visible(&cl, row).await? || after != before {
-                        o.fails.push(format!("client of cluster {c} changed its stores in a failed session with a cluster-{server_c} server: {before} -> {after}"));
+                        o.fails.push(format!("client of cluster {c} changed its stores in a failed session with a cluster-{server_c} server: {}", digest_diff(&before, &after)));
                     }
                     "rejected".to_string()
                 }
@@ -631,7 +638,7 @@ async fn op_sync(w: &mut World, client: Option<u16>, server_c: u16) -> Result<Ou
                         }
                         let after = digest(&cl).await?;
                         if after != before {
-                            o.fails.push(format!("client of cluster {c} changed its stores in a session with a cluster-{server_c} server: {before} -> {after}"));
+                            o.fails.push(format!("client of cluster {c} changed its stores in a session with a cluster-{server_c} server: {}", digest_diff(&before, &after)));
                         }
                     }
                     if seen { "synced".to_string() } else { "accepted-empty".to_string() }
@@ -653,7 +660,7 @@ async fn op_sync(w: &mut World, client: Option<u16>, server_c: u16) -> Result<Ou
             o.fails.push(format!("cluster-{server_c} server wrote {} more frame(s) after its first answer to a client declaring {cdesc}", raw.other_frames));
         }
         if srv_after != srv_before {
-            o.fails.push(format!("server stores changed during a cross-cluster session: {srv_before} -> {srv_after}"));
+            o.fails.push(format!("server stores changed during a cross-cluster session: {}", digest_diff(&srv_before, &srv_after)));
         }
     } else if raw.first != "state" {
         o.fails.push(format!("serve_sync refused a same-cluster client (declared {cdesc}, server {server_c}) with `{}`", raw.first));
